@@ -219,6 +219,8 @@ func loadEngine(repo, verifDir string) (*Engine, error) {
 		e.verdictDecls = append(e.verdictDecls, "(declare-fun "+ct.PureVerdict+" ("+strings.Join(sorts, " ")+") Bool)")
 	}
 	sort.Strings(e.verdictDecls)
+	// register the struct sorts that ghost declarations and SMT preamble lines mention by name
+	e.registerNamedSorts()
 	e.instIfaces = map[string]*types.Named{}
 	for _, p := range pkgs {
 		if p.TypesInfo == nil {
@@ -408,4 +410,47 @@ func (e *Engine) contractPkg(key string, fallback *types.Package) *ssa.Package {
 		return e.prog.Package(fallback)
 	}
 	return nil
+}
+
+// registerNamedSorts resolves T_* sort names used in ghost declarations / preamble lines to Go struct
+// types (by their generated sort name) and registers them, so that field selection on ghost records
+// works before the type has been met in code.
+func (e *Engine) registerNamedSorts() {
+	want := map[string]bool{}
+	collect := func(s string) {
+		for _, tok := range strings.FieldsFunc(s, func(c rune) bool { return c == '(' || c == ')' || c == ' ' }) {
+			if strings.HasPrefix(tok, "T_") && !strings.Contains(tok, "!") {
+				want[tok] = true
+			}
+		}
+	}
+	for _, g := range e.specs.ghosts {
+		collect(g.Sort)
+	}
+	for _, l := range e.specs.preamble {
+		collect(l)
+	}
+	if len(want) == 0 {
+		return
+	}
+	for _, p := range e.prog.AllPackages() {
+		sc := p.Pkg.Scope()
+		for _, name := range sc.Names() {
+			tn, ok := sc.Lookup(name).(*types.TypeName)
+			if !ok {
+				continue
+			}
+			n, ok := tn.Type().(*types.Named)
+			if !ok || n.TypeParams().Len() > 0 {
+				continue
+			}
+			st, ok := n.Underlying().(*types.Struct)
+			if !ok {
+				continue
+			}
+			if want[shortTypeName(n)] {
+				e.types.structSort(n, st)
+			}
+		}
+	}
 }
